@@ -144,6 +144,36 @@ pub fn tie_case_special(text: &str, strict: bool) -> Option<(String, String)> {
     Some((request, answer))
 }
 
+/// the same with a built-in specification (`a2ml_spec` argument of `load_from_string`): the model gets its text as a
+/// fifth argument and tries it first, as the code does
+pub fn tie_case_special_builtin(text: &str, builtin: &str, strict: bool) -> Option<(String, String)> {
+    let dump = catch(|| a2lfile::verif_hooks::tokenize_dump(text));
+    let request = format!("a2l {} {} L {} {}", u8::from(strict), hex(text.as_bytes()), float_table(text), hex(builtin.as_bytes()));
+    let loaded = match catch(|| a2lfile::load_from_string(text, Some(builtin.to_string()), strict)) {
+        Ok(Ok((f, log))) => Loaded::Ok(f, log),
+        Ok(Err(e)) => Loaded::Err(match &e {
+            A2lError::ParserError { parser_error } => {
+                let (k, l) = perr(parser_error);
+                format!("{k}@{l}")
+            }
+            A2lError::TokenizerError { .. } => "Tokenizer".to_string(),
+            A2lError::EmptyFileError { .. } => "EmptyFile".to_string(),
+            other => format!("Other:{other}"),
+        }),
+        Err(p) => Loaded::Panic(p),
+    };
+    let answer = match (&dump, loaded) {
+        (Err(_), _) | (_, Loaded::Panic(_)) => "PANIC".to_string(),
+        (Ok(Err((kind, line))), _) => format!("err Tokenizer:{kind}@{line}"),
+        (_, Loaded::Err(e)) => format!("err {e}"),
+        (_, Loaded::Ok(f, log)) => match catch(|| f.write_to_string()) {
+            Ok(w) => format!("ok;log={};text={}", log_text(&log), hex(w.as_bytes())),
+            Err(_) => "PANIC-write".to_string(),
+        },
+    };
+    Some((request, answer))
+}
+
 /// the float codec table of a document that may contain A2ML / IF_DATA: `<hex token>=<hex printed>` for f64, and under
 /// the key `f32:<token>` what the value prints as after a round trip through f32 (A2ML `float` members)
 pub fn float_table(text: &str) -> String {
